@@ -21,6 +21,14 @@ Monitors
                  certain acceptance); with the recorded uniforms consumed in the paper's order the
                  selection is replayed exactly; cached logd/grad == fresh evaluation; acceptance
                  statistic == mean min(1, exp(H'-H0)) over the leaves of the last doubling.
+ M5 real targets the same monitors on library targets (DistributionGallery banana/squiggle/funnel/donut/CalSom91/
+                 mixture, Gaussian in its cov/prec/sqrtcov forms with scalar/vector/diag/full parameters given as
+                 float/int arrays, lists, 1-element arrays, Fortran order, GMRF, linear-Gaussian Posterior) behind a
+                 recording pass-through (instance re-classed to a subclass overriding logd/gradient): every array
+                 handed to the target must be bitwise unchanged after the call, every value/gradient must equal an
+                 independent numpy implementation (or gradients + log-density differences; fresh values otherwise
+                 from a deep-copied twin on a copy of the point), the caller's initial-point array and the states
+                 reported through the callback must not change afterwards.
  M3 exact law    r0 and the slice variable fixed, uniforms random: frequencies of the selected orbit index
                  over many repetitions vs the law from enumerating all direction sequences (chi^2, two-stage).
  M4 stationarity K exact draws -> k transitions (fixed eps, or the eps produced by the library's warm-up)
@@ -44,6 +52,8 @@ RULE = ("seeded sampling of (monitor kind, implementation, target family/dimensi
         "and some sub-tree had unequal weights; a stationarity case when all K replicates moved through the "
         "real kernel and the test battery was evaluated; distinct = distinct descriptors (+ stop-reason sub-keys)")
 ASSUMPTIONS = [
+    "library targets: the independent implementations follow the documented Gaussian forms (sqrtcov symmetric, so the "
+    "R^T R / R R^T convention of known finding C04 does not matter) and the gallery's constants as written in its source",
     "the deterministic selection replay assumes the uniform draws are consumed in the order of Hoffman & Gelman's "
     "pseudo code (direction; sub-sampling draw after both halves; top-level acceptance only when s'=1); when the "
     "number of draws or a direction does not fit, the replay is skipped and the draw-order-free monitors decide",
@@ -57,13 +67,15 @@ REQUIRED_COUNTERS = {
               "cache_checked": 1000, "alpha_stat_checked": 600, "tie_transitions_judged": 20, "hostile_leaves_seen": 40,
               "law_reps": 64000, "law_cells_compared": 70, "stationarity_tests": 130,
               "stationarity_replicates": 240000, "reversibility_points_compared": 16,
-              "volume_jacobians_checked": 6, "warmup_eps_constant_checked": 12, "returned_chain_checked": 100},
+              "volume_jacobians_checked": 6, "warmup_eps_constant_checked": 12, "returned_chain_checked": 100,
+              "target_calls_args_checked": 4000, "target_values_checked": 4000, "caller_arrays_unchanged_checked": 1400},
     "thorough": {"leaves_matched": 60000, "transitions_judged": 9000, "selection_replayed": 9000, "selection_support_checked": 9000,
                  "stop_maxdepth": 2500, "stop_uturn_subtree": 1000, "stop_uturn_top": 3500, "stop_divergence": 1200,
                  "cache_checked": 8000, "alpha_stat_checked": 5000, "tie_transitions_judged": 90, "hostile_leaves_seen": 250,
                  "law_reps": 1000000, "law_cells_compared": 280, "stationarity_tests": 190,
                  "stationarity_replicates": 2800000, "reversibility_points_compared": 180,
-                 "volume_jacobians_checked": 40, "warmup_eps_constant_checked": 60, "returned_chain_checked": 900},
+                 "volume_jacobians_checked": 40, "warmup_eps_constant_checked": 60, "returned_chain_checked": 900,
+                 "target_calls_args_checked": 30000, "target_values_checked": 30000, "caller_arrays_unchanged_checked": 10000},
 }
 BUDGET_S = {"quick": 1500.0, "thorough": 7000.0}   # generous: the cases themselves bound the cost; a loaded machine must not skip them
 
@@ -84,8 +96,41 @@ _FACTORS = [0.02, 0.1, 0.3, 0.7, 1.2, 1.8, 2.5, 6.0]
 
 def _reps(rnd):
     """How values cross the boundary between harness and library (all accepted by the unchanged tree)."""
-    return {"xrep": rnd.choice(["f64", "f64", "f32", "cuqi"]), "lrep": rnd.choice(["float", "float", "np0d", "arr1", "cuqi"]),
+    return {"xrep": rnd.choice(["f64", "f64", "f32", "cuqi", "ro", "strided"]), "lrep": rnd.choice(["float", "float", "np0d", "arr1", "cuqi"]),
             "grep": rnd.choice(["nd", "nd", "cuqi"])}
+
+
+def _lib_spec(rnd, proper_only=False):
+    """A real library target: gallery density, Gaussian parameter form, GMRF, small linear-Gaussian posterior."""
+    u = rnd.random()
+    gal = ["squiggle", "banana", "funnel"] if proper_only else ["squiggle", "banana", "funnel", "donut", "CalSom91", "mixture"]
+    if u < 0.3:
+        return {"tk": "lib", "lib": "gallery", "name": rnd.choice(gal), "dim": 2, "tseed": rnd.randrange(10 ** 6)}
+    if u < 0.7:
+        return dict(_gauss_form(rnd), tk="lib", lib="gauss", tseed=rnd.randrange(10 ** 6))
+    if u < 0.82:
+        bc = "zero"      # periodic / neumann GMRFs are improper and their log-det is a known finding of C20/C04 (can be NaN)
+        N = rnd.choice([4, 5, 6, 7])
+        return {"tk": "lib", "lib": "gmrf", "N": N, "dim": N, "bc": bc, "order": rnd.choice([1, 2]),
+                "ptype": rnd.choice(["pyfloat", "pyint", "one"]), "mtype": rnd.choice(["arr", "scalar"]), "tseed": rnd.randrange(10 ** 6)}
+    n = rnd.choice([2, 3, 4])
+    prior = _gauss_form(rnd, dim=n)
+    noise = rnd.choice(["scalar", "vector"])
+    ntype = rnd.choice(["pyint", "pyfloat", "one"]) if noise == "scalar" else rnd.choice(["f64", "int", "list", "intlist"])
+    return {"tk": "lib", "lib": "posterior", "n": n, "dim": n, "m": rnd.choice([2, 3, 5]), "prior": prior,
+            "form": prior["form"], "shape": prior["shape"], "ptype": prior["ptype"],
+            "noise": noise, "ntype": ntype, "Aorder": rnd.choice(["C", "F"]), "tseed": rnd.randrange(10 ** 6)}
+
+
+def _gauss_form(rnd, dim=None):
+    d = dim or rnd.choice([1, 2, 3, 4])
+    form = rnd.choice(["cov", "cov", "prec", "sqrtcov"])          # sqrtprec has no gradient (documented refusal)
+    shape = rnd.choice(["scalar", "vector", "vector", "diag", "full"] if d > 1 else ["scalar", "vector"])
+    if form == "prec" and shape == "scalar" and d > 1:
+        shape = "vector"                                           # scalar prec with dim > 1 is refused (ValueError)
+    ptype = rnd.choice(["pyint", "pyfloat", "one"]) if shape == "scalar" else \
+        rnd.choice(["f64", "int", "list", "intlist"] + (["fortran"] if shape in ("diag", "full") else []))
+    return {"dim": d, "form": form, "shape": shape, "ptype": ptype, "mtype": rnd.choice(["scalar", "list", "intarr", "arr"])}
 
 
 def _tspec(rnd, pool=None):
@@ -116,6 +161,12 @@ def cases(tier, seed):
                          "max_depth": md, "k": k, "K": (K // 2 if md >= 4 else K),
                          "warm": ({"Nb": rnd.choice([30, 60, 120])} if warm else None), "sseed": rnd.randrange(10 ** 6)})
 
+    Kl = 8000 if quick else 50000
+    for i in range(16 if quick else 32):
+        md, k = combos[(i * 3 + rnd.randrange(3)) % 7]
+        out_stat.append({"kind": "stat", "impl": IMPLS[i % 2], "target": _lib_spec(rnd, proper_only=True), "f": rnd.choice([0.5, 1.0, 1.5]),
+                         "max_depth": md, "k": k, "K": Kl, "warm": ({"Nb": 40} if i % 5 == 4 else None), "sseed": rnd.randrange(10 ** 6)})
+
     # ---- M3 exact conditional law
     n_law = 32 if quick else 128
     reps = 5000 if quick else 20000
@@ -124,6 +175,9 @@ def cases(tier, seed):
         out_law.append({"kind": "law", "impl": IMPLS[i % 2], "target": ts, "f": rnd.choice([0.3, 0.7, 1.2, 1.6, 1.9]),
                         "max_depth": rnd.choice([1, 2, 2, 3, 3, 4]), "emode": rnd.choice(["mid", "mid", "rand", "low"]),
                         "reps": reps, "sseed": rnd.randrange(10 ** 6)})
+    for i in range(8 if quick else 32):
+        out_law.append({"kind": "law", "impl": IMPLS[i % 2], "target": _lib_spec(rnd, proper_only=True), "f": rnd.choice([0.7, 1.2, 1.6]),
+                        "max_depth": rnd.choice([2, 3]), "emode": rnd.choice(["mid", "rand"]), "reps": reps // 2, "sseed": rnd.randrange(10 ** 6)})
 
     # ---- M1/M2 traces
     n_trace = 240 if quick else 2200
@@ -140,6 +194,21 @@ def cases(tier, seed):
                          "target": _tspec(rnd, [{"tk": "gauss", "dim": 2, "cond": 10}, {"tk": "gauss", "dim": 3, "cond": 100}, {"tk": "logistic", "dim": 3}]),
                          "f": rnd.choice([0.03, 0.06, 0.1]), "max_depth": rnd.choice([None, 8, 9]), "T": 3, "burn": 0, "split": False,
                          "init": "draw", "reps": _reps(rnd), "emode": rnd.choice(["rand", "big"]), "sseed": rnd.randrange(10 ** 6)})
+    n_lib = 90 if quick else 700        # real library targets behind recording pass-throughs
+    for i in range(n_lib):
+        md = rnd.choice([1, 2, 3, 4, 5, None])
+        out_rest.append({"kind": "trace", "impl": IMPLS[i % 2], "target": _lib_spec(rnd),
+                         "f": rnd.choice([0.1, 0.3, 0.7, 1.2, 1.8] if md is not None else [0.3, 0.7, 1.2]),
+                         "max_depth": md, "T": 6, "burn": rnd.choice([0, 0, 2]), "split": rnd.choice([False, True]),
+                         "init": rnd.choice(["draw", "draw", "ones", "int"]), "reps": {"xrep": rnd.choice(["f64", "f64", "cuqi", "ro", "strided"])},   # no float32: the library then computes in float32
+                         "emode": rnd.choice(["rand", "rand", "big"]), "sseed": rnd.randrange(10 ** 6)})
+    n_lib_adapt = 12 if quick else 80
+    for i in range(n_lib_adapt):
+        out_rest.append({"kind": "trace_adapt", "impl": IMPLS[i % 2], "target": _lib_spec(rnd, proper_only=True),
+                         "max_depth": rnd.choice([2, 3, 4]), "Nb": rnd.choice([8, 15]), "Ns": 5,
+                         "tune": rnd.choice(["each", "default"]), "eps0": None, "amode": rnd.choice(["adapt", "adapt", "noadapt"]),
+                         "delta": rnd.choice([0.6, 0.8]), "init": rnd.choice(["draw", "ones"]), "reps": {"xrep": rnd.choice(["f64", "ro"])},
+                         "sseed": rnd.randrange(10 ** 6)})
     n_adapt = 24 if quick else 160
     for i in range(n_adapt):
         out_rest.append({"kind": "trace_adapt", "impl": IMPLS[i % 2], "target": _tspec(rnd),
@@ -181,11 +250,13 @@ def cases(tier, seed):
 
 
 def crash_config(case):
-    return {"kind": case.get("kind"), "impl": case.get("impl"), "tk": case.get("target", {}).get("tk")}
+    t = case.get("target", {})
+    return {"kind": case.get("kind"), "impl": case.get("impl"), "tk": t.get("tk") if t.get("tk") != "lib" else "lib_" + str(t.get("lib"))}
 
 
 def _cfg(case, **kw):
-    c = {"kind": case["kind"], "impl": case["impl"], "tk": case["target"]["tk"]}
+    t = case["target"]
+    c = {"kind": case["kind"], "impl": case["impl"], "tk": t["tk"] if t["tk"] != "lib" else "lib_" + t["lib"]}
     c.update(kw)
     return c
 
@@ -200,6 +271,7 @@ class Rec:
     back to the library (python float / 0-d array / length-1 array / CUQIarray; ndarray / CUQIarray gradient)."""
     def __init__(self, tgt, record=True, reps=None):
         self.t, self.events, self.record = tgt, [], record
+        self.arg_changes = []
         reps = reps or {}
         self.lrep, self.grep = reps.get("lrep", "float"), reps.get("grep", "nd")
         self.cuqi = None
@@ -225,9 +297,267 @@ class Rec:
         return g
 
 
+# ----------------------------------------------------------------------------------------- real library targets
+
+def _conv(M, ptype):
+    """A parameter value in the container / dtype asked for by the case (whole numbers, so integer types are exact)."""
+    M = np.asarray(M)
+    if ptype == "f64":
+        return np.array(M, dtype=float)
+    if ptype == "int":
+        return np.array(np.rint(M), dtype=np.int64)
+    if ptype == "list":
+        return np.array(M, dtype=float).tolist()
+    if ptype == "intlist":
+        return np.array(np.rint(M), dtype=np.int64).tolist()
+    if ptype == "one":
+        return np.array([float(M)])
+    if ptype == "pyint":
+        return int(M)
+    if ptype == "pyfloat":
+        return float(M)
+    if ptype == "fortran":
+        return np.asfortranarray(np.array(M, dtype=float))
+    raise ValueError(ptype)
+
+
+def _lib_gauss(spec, rs, name="x"):
+    """cuqi.distribution.Gaussian in one of its parameter forms + the (mean, covariance) it documents."""
+    import cuqi
+    d, form, shape = spec["dim"], spec["form"], spec["shape"]
+    if shape == "scalar":
+        v = float(rs.choice([1, 2, 4, 9])); M = v * np.eye(d); val = v
+    elif shape == "vector":
+        vv = rs.choice([1, 2, 4, 9, 16], size=d).astype(float); M = np.diag(vv); val = vv
+    elif shape == "diag":
+        vv = rs.choice([1, 2, 4, 9, 16], size=d).astype(float); M = np.diag(vv); val = M
+    else:
+        B = rs.randint(-2, 3, size=(d, d)).astype(float); M = B @ B.T + float(rs.choice([1, 2, 3])) * np.eye(d); val = M
+    if form == "cov":
+        Sigma = M
+    elif form == "prec":
+        Sigma = np.linalg.inv(M)
+    else:                                 # sqrtcov: standard deviations / symmetric square root factor
+        Sigma = M.T @ M
+    mt = spec["mtype"]
+    if mt == "scalar":
+        mu = np.full(d, float(rs.choice([0, 2, -1]))); mean = float(mu[0]) if rs.random_sample() < 0.5 else int(mu[0])
+    elif mt == "list":
+        mu = rs.randint(-3, 4, d).astype(float); mean = mu.tolist()
+    elif mt == "intarr":
+        mu = rs.randint(-3, 4, d).astype(float); mean = mu.astype(np.int64)
+    else:
+        mu = np.round(rs.standard_normal(d), 2); mean = mu.copy()
+    kw = {form: _conv(val, spec["ptype"])}
+    if mt == "scalar" and shape == "scalar":
+        kw["geometry"] = d
+    return cuqi.distribution.Gaussian(mean, name=name, **kw), mu, Sigma
+
+
+class QuadForm(TG._Base):
+    """-1/2 (x-mu)^T P (x-mu), P possibly singular (un-normalised reference: gradients and differences only)."""
+    def __init__(self, mu, P):
+        self.mu, self.P = np.asarray(mu, float), np.asarray(P, float)
+        self.dim = self.mu.size
+        self.sigma_min = 1.0 / math.sqrt(float(np.linalg.eigvalsh(self.P).max()))
+
+    def logd(self, x):
+        d = np.asarray(x, float) - self.mu
+        return float(-0.5 * d @ (self.P @ d))
+
+    def grad(self, x):
+        return -(self.P @ (np.asarray(x, float) - self.mu))
+
+
+class LibTarget:
+    """A real cuqi target + what the harness knows about it independently.
+    ref   : independent numpy implementation with the documented normalisation (values and gradients), or None
+    ref_u : independent un-normalised implementation (gradients and log-density differences), or None
+    twin  : deep copy of the library object, evaluated on COPIES of points when no `ref` exists
+    """
+    is_lib = True
+
+    def __init__(self, obj, spec, ref=None, ref_u=None):
+        import copy
+        self.spec, self.ref, self.ref_u = spec, ref, ref_u
+        self.twin = copy.deepcopy(obj)
+        self._proto = obj
+        self.dim = int(obj.dim)
+        base = ref if ref is not None else ref_u
+        self.sigma_min = float(base.sigma_min)
+        self.kind = "lib_" + spec["lib"]
+        sampler_ref = ref if (ref is not None and hasattr(ref, "draw")) else (ref_u if (ref_u is not None and hasattr(ref_u, "draw")) else None)
+        if sampler_ref is not None:
+            self.draw, self.to_normal = sampler_ref.draw, sampler_ref.to_normal
+
+    def fresh(self):
+        import copy
+        return copy.deepcopy(self._proto)
+
+    def logd(self, x):
+        x = np.array(x, dtype=float, copy=True)
+        if self.ref is not None:
+            return self.ref.logd(x)
+        with np.errstate(all="ignore"):
+            return float(np.asarray(self.twin.logd(x), dtype=float).reshape(-1)[0])
+
+    def grad(self, x):
+        x = np.array(x, dtype=float, copy=True)
+        if self.ref is not None:
+            return np.asarray(self.ref.grad(x), dtype=float)
+        with np.errstate(all="ignore"):
+            return np.array(self.twin.gradient(x), dtype=float).reshape(-1)
+
+    def fg(self, x):
+        return self.logd(x), self.grad(x)
+
+
+def make_lib_target(spec, rs):
+    import cuqi
+    lib = spec["lib"]
+    if lib == "gallery":
+        return LibTarget(cuqi.distribution.DistributionGallery(spec["name"]), spec, ref=TG.GALLERY[spec["name"]]())
+    if lib == "gauss":
+        obj, mu, Sigma = _lib_gauss(spec, rs)
+        return LibTarget(obj, spec, ref=TG.NormalisedGauss(mu, Sigma))
+    if lib == "gmrf":
+        from vlib.refs import stencils as ST
+        N, bc, order = spec["N"], spec["bc"], spec["order"]
+        m = np.round(rs.standard_normal(N), 2) if spec.get("mtype") != "scalar" else np.zeros(N)
+        delta = float(rs.choice([1, 2, 5]))
+        prec = _conv(delta, spec.get("ptype", "pyfloat"))
+        obj = cuqi.distribution.GMRF(m if spec.get("mtype") != "scalar" else 0, prec, bc_type=bc, order=order,
+                                     geometry=cuqi.geometry.Continuous1D(N), name="x")
+        D = ST.diff_op(N, bc, order, 1)
+        P = delta * (D.T @ D)
+        ref_u = TG.NormalisedGauss(m, np.linalg.inv(P)) if bc == "zero" else QuadForm(m, P)
+        return LibTarget(obj, spec, ref_u=ref_u)
+    if lib == "posterior":
+        n, m = spec["n"], spec["m"]
+        A = np.round(rs.standard_normal((m, n)), 2)
+        prior, mu0, S0 = _lib_gauss(dict(spec["prior"], dim=n), rs, name="x")
+        noise_var = rs.choice([1, 2, 4], size=m).astype(float) if spec["noise"] != "scalar" else np.full(m, float(rs.choice([1, 2, 4])))
+        ncov = _conv(noise_var[0], spec["ntype"]) if spec["noise"] == "scalar" else _conv(noise_var, spec["ntype"])
+        model = cuqi.model.LinearModel(A if spec.get("Aorder") != "F" else np.asfortranarray(A))
+        y = cuqi.distribution.Gaussian(model(prior), ncov, name="y")
+        data = np.round(A @ mu0 + rs.standard_normal(m), 2)
+        post = cuqi.distribution.JointDistribution(prior, y)(y=data)
+        P0 = np.linalg.inv(S0)
+        P = P0 + A.T @ (A / noise_var[:, None])
+        mean = np.linalg.solve(P, P0 @ mu0 + A.T @ (data / noise_var))
+        return LibTarget(post, spec, ref_u=TG.NormalisedGauss(mean, np.linalg.inv(P)))
+    raise ValueError(lib)
+
+
+def make_target(spec, rs):
+    return make_lib_target(spec, rs) if spec.get("tk") == "lib" else TG.make(spec, rs)
+
+
+def wrap_recording(obj, rec):
+    """Recording pass-through on a real target: the instance gets a subclass whose logd/gradient copy the argument,
+    call the library's own method, verify that the caller's array is bitwise unchanged and log the evaluation."""
+    cls = obj.__class__
+
+    def _call(self, kind, meth, a, k):
+        x = a[0] if a else None
+        before = np.array(x, copy=True) if isinstance(x, np.ndarray) else None
+        v = meth(self, *a, **k)
+        if before is not None:
+            if not (x.shape == before.shape and x.dtype == before.dtype and np.array_equal(np.asarray(x), np.asarray(before), equal_nan=True)):
+                rec.arg_changes.append((kind, np.array(before, dtype=float), np.array(x, dtype=float, copy=True)))
+        if rec.record and x is not None:
+            xb = np.array(before if before is not None else x, dtype=float).reshape(-1)
+            with np.errstate(all="ignore"):
+                if kind == "L":
+                    rec.events.append(("L", xb, float(np.asarray(v, dtype=float).reshape(-1)[0])))
+                else:
+                    rec.events.append(("G", xb, np.array(v, dtype=float, copy=True).reshape(-1)))
+        return v
+
+    def logd(self, *a, **k):
+        return _call(self, "L", cls.logd, a, k)
+
+    def gradient(self, *a, **k):
+        return _call(self, "G", cls.gradient, a, k)
+
+    obj.__class__ = type(cls.__name__, (cls,), {"logd": logd, "gradient": gradient, "__module__": cls.__module__})
+    return obj
+
+
+def preflight_lib(ctx, cfg, tgt, rs):
+    """Before an expensive statistical case on a real target: a few direct calls through the recording pass-through
+    (arguments unchanged, values equal to the independent implementation). Returns False when the target is already
+    known to be broken (reported), so that the case does not spend its budget - or hang - on a corrupted density."""
+    if not getattr(tgt, "is_lib", False):
+        return True
+    rec = Rec(tgt)
+    obj = cuqi_target(rec)
+    base = tgt.draw(rs, 3) if hasattr(tgt, "draw") else np.ones((3, tgt.dim))
+    for x in base:
+        x = np.array(x, dtype=float, copy=True)
+        obj.logd(x)
+        obj.gradient(x)
+    n0 = len(ctx.violations)
+    check_lib_evaluations(ctx, cfg, tgt, rec)
+    return len(ctx.violations) == n0
+
+
+def _lib_cfg(tgt):
+    sp = getattr(tgt, "spec", None)
+    if not sp:
+        return {}
+    out = {"lib": sp["lib"]}
+    for k in ("name", "form", "shape", "ptype", "mtype", "bc", "order", "noise", "ntype"):
+        if k in sp:
+            out[k] = sp[k]
+    return out
+
+
+def check_lib_evaluations(ctx, cfg, tgt, rec):
+    """Monitors on the recorded calls of a real target: arguments bitwise unchanged; every value / gradient the
+    library returned equals the independent implementation (full, or gradients + differences)."""
+    cfg = dict(cfg, **_lib_cfg(tgt))
+    ctx.count("target_calls_args_checked", len(rec.events))
+    if rec.arg_changes:
+        kind, b, a = rec.arg_changes[0]
+        ctx.violation("argument_modified", dict(cfg, call="logd" if kind == "L" else "gradient"),
+                      detail=f"{len(rec.arg_changes)} call(s) of the target's {'logd' if kind == 'L' else 'gradient'} changed the array handed in: "
+                             f"{b.tolist()} -> {a.tolist()}")
+    ref = tgt.ref if tgt.ref is not None else tgt.ref_u
+    if ref is None:
+        return
+    full = tgt.ref is not None
+    base = None
+    for kind, x, v in rec.events[:400]:
+        if not np.all(np.isfinite(x)):
+            continue
+        with np.errstate(all="ignore"):
+            if kind == "G":
+                want = np.asarray(ref.grad(x), dtype=float)
+                ctx.count("target_values_checked")
+                if not R.same_point(np.asarray(v, float), want, rtol=1e-8, atol=1e-10 * (1.0 + float(np.max(np.abs(want))) if np.all(np.isfinite(want)) else 1.0)):
+                    ctx.violation("target_evaluation_mismatch", dict(cfg, what="gradient"),
+                                  detail=f"gradient at {x.tolist()}: library {np.asarray(v).tolist()}, independent implementation {want.tolist()}")
+                    return
+            else:
+                want = ref.logd(x)
+                if not full:
+                    if base is None:
+                        base = (v, want)
+                        continue
+                    v, want = v - base[0], want - base[1]
+                ctx.count("target_values_checked")
+                if math.isfinite(want) and not abs(v - want) <= 1e-8 * (1.0 + abs(want)):
+                    ctx.violation("target_evaluation_mismatch", dict(cfg, what="logd" if full else "logd_difference"),
+                                  detail=f"log-density{'' if full else ' difference'} at {x.tolist()}: library {v}, independent implementation {want}")
+                    return
+
+
 def cuqi_target(rec):
     import cuqi
     rec.cuqi = cuqi
+    if getattr(rec.t, "is_lib", False):
+        return wrap_recording(rec.t.fresh(), rec)
     return cuqi.distribution.UserDefinedDistribution(dim=rec.t.dim, logpdf_func=rec.logpdf,
                                                      gradient_func=rec.gradient, name="x")
 
@@ -240,6 +570,14 @@ def _represent(x0, xrep):
     if xrep == "cuqi":
         import cuqi
         return cuqi.array.CUQIarray(np.array(x0, dtype=float), geometry=cuqi.geometry.Continuous1D(x0.size))
+    if xrep == "ro":                       # read-only array: a write through the argument raises inside the library
+        a = np.array(x0, copy=True)
+        a.setflags(write=False)
+        return a
+    if xrep == "strided":                  # non-contiguous view of a larger buffer
+        big = np.zeros(2 * x0.size + 1, dtype=x0.dtype)
+        big[1::2] = x0
+        return big[1::2]
     return np.array(x0, copy=True)
 
 
@@ -282,7 +620,8 @@ def run_chain(impl, tgt, rs, x0, max_depth, eps, T, r_script=None, e_script=None
     rec = Rec(tgt, reps=reps)
     target = cuqi_target(rec)
     xrep = (reps or {}).get("xrep", "f64")
-    x0_used = np.array(_represent(x0, xrep), dtype=float)      # what the sampler really starts from (float32 rounding!)
+    x0_obj = _represent(x0, xrep)                                # the very object handed to the sampler
+    x0_used = np.array(x0_obj, dtype=float)                     # what the sampler really starts from (float32 rounding!)
     stream = Stream(rs, rec, tgt.dim, r_script, e_script, u_const)
     after = []   # per transition: state reported through the callback (+ sampler attributes for the stateful one)
     Nb = warm["Nb"] if warm else 0
@@ -291,28 +630,28 @@ def run_chain(impl, tgt, rs, x0, max_depth, eps, T, r_script=None, e_script=None
     with Scripted(normal=stream.normal, uniform=stream.uniform, exponential=stream.exponential) as sc:
         if impl == "legacy":
             def cb(sample, idx):
-                after.append({"x": np.array(sample, dtype=float, copy=True)})
+                after.append({"x": np.array(sample, dtype=float, copy=True), "obj": sample})
             if warm:
                 # adaptive warm-up, or the heuristic initial step size kept fixed (adapt_step_size=False)
-                s = cuqi.sampler.NUTS(target, x0=_represent(x0, xrep), adapt_step_size=adapt,
+                s = cuqi.sampler.NUTS(target, x0=x0_obj, adapt_step_size=adapt,
                                       opt_acc_rate=warm.get("delta", 0.6), callback=cb, **md_kw)
             else:
                 Nb = int(burn)
-                s = cuqi.sampler.NUTS(target, x0=_represent(x0, xrep), adapt_step_size=float(eps), callback=cb, **md_kw)
+                s = cuqi.sampler.NUTS(target, x0=x0_obj, adapt_step_size=float(eps), callback=cb, **md_kw)
             # N samples incl. the initial one: N + Nb = T + Nb + 1  -> T + Nb transitions
             out = (s.sample_adapt if api_alt else s.sample)(T + 1, Nb)
             samples = np.asarray(out.samples)
             extra = {"loglike": np.asarray(out.loglike_eval), "samples": samples, "Nb": Nb}
         else:
             def cb(sample, idx):
-                after.append({"x": np.array(sample, dtype=float, copy=True),
+                after.append({"x": np.array(sample, dtype=float, copy=True), "obj": sample,
                               "logd": _tofloat(getattr(s, "current_target_logd", None)),
                               "grad": _toarr(getattr(s, "current_target_grad", None)),
                               "alpha": _tofloat(getattr(s, "_current_alpha_ratio", None))})
             kw = dict(md_kw)
             if warm:
                 kw["opt_acc_rate"] = warm.get("delta", 0.6)
-            s = cuqi.experimental.mcmc.NUTS(target, initial_point=_represent(x0, xrep),
+            s = cuqi.experimental.mcmc.NUTS(target, initial_point=x0_obj,
                                             step_size=(None if eps is None else float(eps)), callback=cb, **kw)
             if warm and adapt:
                 if warm.get("tune") == "each":
@@ -330,7 +669,10 @@ def run_chain(impl, tgt, rs, x0, max_depth, eps, T, r_script=None, e_script=None
             extra = {"Nb": Nb}
     eps_list = [float(e) for e in getattr(s, "epsilon_list", [])]
     trs = cut_transitions(sc.draws, stream.marks, rec.events, tgt.dim)
-    return {"transitions": trs, "after": after, "eps_list": eps_list, "extra": extra, "sampler": s, "rec": rec, "x0_used": x0_used}
+    x0_changed = not np.array_equal(np.array(x0_obj, dtype=float), x0_used, equal_nan=True)
+    states_changed = sum(1 for a in after if not np.array_equal(np.array(a["obj"], dtype=float), a["x"], equal_nan=True))
+    return {"transitions": trs, "after": after, "eps_list": eps_list, "extra": extra, "sampler": s, "rec": rec, "x0_used": x0_used,
+            "x0_changed": x0_changed, "states_changed": states_changed, "x0_now": np.array(x0_obj, dtype=float)}
 
 
 def _tofloat(v):
@@ -574,6 +916,17 @@ def _e_script(mode, rs, T):
 def _walk_chain(ctx, case, cfg, tgt, run, x0, max_depth, eps_fixed, allow_ties=False):
     """Analyse every transition of a recorded chain; returns the list of per-transition results."""
     trs, after, eps_list = run["transitions"], run["after"], run["eps_list"]
+    ctx.count("caller_arrays_unchanged_checked", 1 + len(after))
+    if run.get("x0_changed"):
+        ctx.violation("initial_point_modified", dict(cfg, **_lib_cfg(tgt)), detail=f"the array passed as initial point was {run['x0_used'].tolist()} "
+                      f"and is {run['x0_now'].tolist()} after sampling")
+    if run.get("states_changed"):
+        ctx.violation("stored_state_changed", dict(cfg, **_lib_cfg(tgt)), detail=f"{run['states_changed']} of the {len(after)} state arrays reported through the "
+                      f"callback were changed after they had been reported")
+    if getattr(tgt, "is_lib", False):
+        check_lib_evaluations(ctx, cfg, tgt, run["rec"])
+    if run["rec"].arg_changes:
+        return []          # the evaluation trace is not a trajectory any more; reported above
     if len(trs) != len(after):
         ctx.inconclusive(f"{len(trs)} transitions found in the random stream but {len(after)} callback calls")
         return []
@@ -602,7 +955,7 @@ def _walk_chain(ctx, case, cfg, tgt, run, x0, max_depth, eps_fixed, allow_ties=F
 
 def run_trace(case, ctx):
     rs = core.np_rng(ctx.seed, PROPERTY, core.canon(case))
-    tgt = TG.make(case["target"], rs)
+    tgt = make_target(case["target"], rs)
     cfg = _cfg(case)
     x0 = _init_point(tgt, rs, case.get("init", "draw"))
     eps = _eps(case, tgt)
@@ -641,7 +994,7 @@ def run_tie(case, ctx):
     """Constant target, slice variable exactly at its upper end: every leaf has exactly the initial energy, so
     every leaf is in the slice (u <= exp(H')) and the first doubling must be accepted with probability 1."""
     rs = core.np_rng(ctx.seed, PROPERTY, core.canon(case))
-    tgt = TG.make(case["target"], rs)
+    tgt = make_target(case["target"], rs)
     cfg = _cfg(case)
     x0 = rs.standard_normal(tgt.dim)
     eps = _eps(case, tgt)
@@ -656,7 +1009,7 @@ def run_tie(case, ctx):
 
 def run_hostile(case, ctx):
     rs = core.np_rng(ctx.seed, PROPERTY, core.canon(case))
-    tgt = TG.make(case["target"], rs)
+    tgt = make_target(case["target"], rs)
     cfg = _cfg(case)
     # start inside the support, close to the hostile half space
     y = rs.standard_normal(tgt.dim)
@@ -675,7 +1028,7 @@ def run_hostile(case, ctx):
 
 def run_trace_adapt(case, ctx):
     rs = core.np_rng(ctx.seed, PROPERTY, core.canon(case))
-    tgt = TG.make(case["target"], rs)
+    tgt = make_target(case["target"], rs)
     cfg = _cfg(case)
     impl = case["impl"]
     x0 = _init_point(tgt, rs, case.get("init", "draw"))
@@ -685,6 +1038,8 @@ def run_trace_adapt(case, ctx):
     amode = case.get("amode", "adapt")
     if amode == "noadapt":
         eps0 = None             # heuristic initial step size, then kept fixed
+    if not preflight_lib(ctx, cfg, tgt, rs):
+        return
     run = run_chain(impl, tgt, rs, x0, case["max_depth"], eps0, Ns,
                     warm={"Nb": Nb, "tune": case.get("tune"), "delta": delta, "amode": amode}, reps=case.get("reps"))
     res = _walk_chain(ctx, case, cfg, tgt, run, x0, case["max_depth"], None)
@@ -720,7 +1075,7 @@ def run_trace_adapt(case, ctx):
 def run_reverse(case, ctx):
     """Two transitions started at different phase points of one orbit must visit the same points."""
     rs = core.np_rng(ctx.seed, PROPERTY, core.canon(case))
-    tgt = TG.make(case["target"], rs)
+    tgt = make_target(case["target"], rs)
     cfg = _cfg(case)
     x0 = _init_point(tgt, rs, "draw")
     eps = _eps(case, tgt)
@@ -768,7 +1123,7 @@ def run_volume(case, ctx):
     and momenta) of the map (x0, r0) -> (x_L, r_L) read from the observed leaves; r_L follows from two
     consecutive observed leaves and the gradient the target returned: x_{L+1} = x_L + h (r_L + h/2 g_L)."""
     rs = core.np_rng(ctx.seed, PROPERTY, core.canon(case))
-    tgt = TG.make(case["target"], rs)
+    tgt = make_target(case["target"], rs)
     cfg = _cfg(case)
     d, L = tgt.dim, case["L"]
     eps = _eps(case, tgt)
@@ -825,8 +1180,9 @@ def _one_step_runner(impl, tgt, x0, max_depth, eps):
         s = cuqi.sampler.NUTS(target, x0=x0.copy(), max_depth=max_depth, adapt_step_size=float(eps))
 
         def f(x=x0):
-            s.x0 = x
+            s.x0 = np.array(x, dtype=float, copy=True)
             return np.asarray(s.sample(2).samples)[:, -1]
+        f.rec = rec
         return f, s
     s = cuqi.experimental.mcmc.NUTS(target, initial_point=x0.copy(), max_depth=max_depth, step_size=float(eps))
     s.sample(1)
@@ -835,12 +1191,13 @@ def _one_step_runner(impl, tgt, x0, max_depth, eps):
     def f(x=x0, k=1):
         st = {"metadata": base["metadata"], "state": dict(base["state"])}
         st["state"]["current_point"] = np.array(x, dtype=float, copy=True)
-        st["state"]["current_target_logd"] = target.logd(x)
-        st["state"]["current_target_grad"] = target.gradient(x)
+        st["state"]["current_target_logd"] = target.logd(np.array(x, dtype=float, copy=True))
+        st["state"]["current_target_grad"] = target.gradient(np.array(x, dtype=float, copy=True))
         s.set_state(st)
         for _ in range(k):
             s.step()
         return np.array(s.current_point, dtype=float, copy=True)
+    f.rec = rec
     return f, s
 
 
@@ -868,9 +1225,11 @@ def _chi2(counts, probs, n):
 
 def run_law(case, ctx):
     rs = core.np_rng(ctx.seed, PROPERTY, core.canon(case))
-    tgt = TG.make(case["target"], rs)
+    tgt = make_target(case["target"], rs)
     cfg = _cfg(case)
     impl, md = case["impl"], case["max_depth"]
+    if not preflight_lib(ctx, cfg, tgt, rs):
+        return
     x0 = tgt.draw(rs, 1)[0]
     eps = _eps(case, tgt)
     r0 = rs.standard_normal(tgt.dim)
@@ -985,10 +1344,12 @@ def battery(Z):
 
 def run_stat(case, ctx):
     rs = core.np_rng(ctx.seed, PROPERTY, core.canon(case))
-    tgt = TG.make(case["target"], rs)
+    tgt = make_target(case["target"], rs)
     cfg = _cfg(case, warm=bool(case.get("warm")))
     impl, md, k = case["impl"], case["max_depth"], case["k"]
     eps = _eps(case, tgt)
+    if not preflight_lib(ctx, cfg, tgt, rs):
+        return
     np.random.seed(int(rs.randint(0, 2 ** 31 - 1)))
     if case.get("warm"):
         eps = _warmup_eps(ctx, cfg, impl, tgt, rs, md, case["warm"]["Nb"])
@@ -1002,7 +1363,7 @@ def run_stat(case, ctx):
         moved = 0
         if impl == "legacy":
             for i in range(K):
-                sampler.x0 = X0[i]
+                sampler.x0 = X0[i].copy()
                 X[i] = np.asarray(sampler.sample(k + 1).samples)[:, -1]
         else:
             for i in range(K):
@@ -1012,6 +1373,13 @@ def run_stat(case, ctx):
 
     K = case["K"]
     X, moved = final_states(K)
+    if getattr(tgt, "is_lib", False):
+        ctx.count("target_calls_args_checked", K)
+        if step.rec.arg_changes:
+            kind, b, a = step.rec.arg_changes[0]
+            ctx.violation("argument_modified", dict(cfg, **_lib_cfg(tgt), call="logd" if kind == "L" else "gradient"),
+                          detail=f"{len(step.rec.arg_changes)} target call(s) changed the array handed in: {b.tolist()} -> {a.tolist()}")
+            return
     ctx.count("stationarity_replicates", K)
     ctx.count("stationarity_transitions", K * k)
     if not np.all(np.isfinite(X)):
